@@ -417,17 +417,17 @@ func (e *Engine) scanCallMods(call *ssa.CallCommon, li *loopInfo, ms *modSet, de
 		ms.why = append(ms.why, "call through function value")
 		return
 	}
-	if c := e.contractFor(fn); c != nil && !c.Inline {
-		e.modsCallee = fn // the actual (possibly generic-instantiated) callee
-		e.contractMods(c, ms)
-		e.modsCallee = nil
-		return
-	}
 	name := fn.String()
 	if _, ok := externs[name]; ok {
 		if m, ok := externMods[name]; ok {
 			m(e, call, ms)
 		}
+		return
+	}
+	if c := e.contractFor(fn); c != nil && !c.Inline {
+		e.modsCallee = fn // the actual (possibly generic-instantiated) callee
+		e.contractMods(c, ms)
+		e.modsCallee = nil
 		return
 	}
 	pp := ""
